@@ -282,6 +282,49 @@ def scale_sweep(crys, chem, sl, jn, d, inp, base, ks):
 SINGLE_LABELS = ("tet-edge2", "sq-edge2", "tet-x4", "sq-x4", "cub-x6", "hex-x6")
 
 
+def reorder_network(jn, rng):
+    """the same jump network listed by hand in another order: classes in random order, jumps shuffled inside every class (a jump is
+    in general no longer followed by its reverse; the first jump = representative changes).  Returns (jn2, cmap) with
+    jn2[c2][k] = jn[cmap[c2][0]][cmap[c2][1][k]]"""
+    order = list(range(len(jn))); rng.shuffle(order)
+    jn2, cmap = [], []
+    for c in order:
+        idx = list(range(len(jn[c])))
+        for _ in range(6):
+            rng.shuffle(idx)
+            # prefer an order in which some jump is NOT followed by its reverse
+            if len(idx) <= 2 or any(not (jn[c][idx[k]][0] == jn[c][idx[k + 1]][0][::-1] and np.allclose(jn[c][idx[k]][1], -jn[c][idx[k + 1]][1]))
+                                    for k in range(0, len(idx) - 1, 2)): break
+        jn2.append([jn[c][k] for k in idx]); cmap.append((c, idx))
+    return jn2, cmap
+
+
+def local_network(crys, chem, rng):
+    """a short-range network that need not percolate and whose unit-cell graph falls apart (reorientation without long-range
+    diffusion): cutoff just above the first or second shell.  None if it has no jump between two different sites or is connected."""
+    sh = gen.shells(crys, chem)
+    N = len(crys.basis[chem])
+    for k in rng.sample([0, 1, 2], 3):
+        if k >= len(sh): continue
+        cut = sh[k] + 1e-4
+        jn = crys.jumpnetwork(chem, cut)
+        if not any(i != j for jl in jn for (i, j), dx in jl): continue
+        if sum(len(t) for t in jn) > 80: continue
+        if len(components(N, pair_jumps(jn))) > 1: return cut, crys.sitelist(chem), jn
+    return None
+
+
+def split_pair_crystals():
+    """hosts with close pairs of interstitial sites split across mirror planes; only the jump inside a pair is below the cutoff"""
+    from onsager import crystal
+    a = np.array
+    latt = a([[1.0, 0., 0.2], [0., 1.15, 0.], [0., 0., 1.3]])
+    c1 = crystal.Crystal(latt, [[a([0., 0., 0.]), a([0.3, 0., 0.2])], [a([0.5, 0.09, 0.1]), a([0.5, -0.09, 0.1]), a([0.2, 0.42, 0.6]), a([0.2, 0.58, 0.6])]])
+    yield "mono-splitpairs", c1, 1, 0.25
+    c2 = crystal.Crystal(np.diag([1., 1.3]), [[a([0., 0.])], [a([0.5, 0.08]), a([0.5, -0.08]), a([0.1, 0.42]), a([0.1, 0.58]), a([-0.1, 0.42]), a([-0.1, 0.58])]])
+    yield "rect-splitpairs", c2, 1, 0.25
+
+
 def single_set_crystals():
     from onsager import crystal
     a = np.array
@@ -309,7 +352,8 @@ def random_input(nr, sl, jn, dim, spread):
 def run(ck):
     ck.rule = ("crystal pool (named + random crystal systems, 2-D/3-D, 1-3 Wyckoff sets, up to 6 sites) x percolating cutoff x "
                "random prefactors/energies/non-symmetric dipoles; streams: normal (barrier spread <= 4 kT), stiff (<= 14 kT, "
-               "condition-scaled tolerance), extreme (one barrier 20-26 kT above the rest), scale sweep (first data set of every network with all "
+               "condition-scaled tolerance), local (short cutoffs, disconnected non-percolating networks incl. split-pair crystals: one zero mode per connected part, "
+               "sum rule per part), hand-ordered listings of half of the networks (classes and jumps shuffled, compared with the canonical listing), extreme (one barrier 20-26 kT above the rest), scale sweep (first data set of every network with all "
                "rates x 1e-3..1e-15 through prefactors and through barriers/kT: same modes, scaled rates, identical tensors, sum rule); every "
                "reported (rate, tensor) is compared with the loss tensor of the eigenspace of its rate; every case is evaluated in numpy and, "
                "for connected networks of the normal stream, by the Coq checker; distinct = distinct (crystal, cutoff, data); "
@@ -338,17 +382,31 @@ def run(ck):
         for lab, crys, chem in single_set_crystals():
             yield lab, (gen.shuffled(crys, rng) if rng.random() < 0.5 else crys), chem
         yield from gen.pool(rng, ncases, names=multi, random_frac=0.55, maxatoms=4)
-    for label, crys, chem in source():
-        try:
-            net = gen.percolating_network(crys, chem, rng, **(dict(maxshell=8, maxjumps=200) if label in SINGLE_LABELS else {}))
-        except Exception:
-            skipped["construct-failed"] += 1; continue
-        if net is None:
-            skipped["nonpercolating"] += 1; continue
+    def networks():
+        # always present: disconnected, non-percolating networks (losstensors needs no long-range diffusion); the relaxation
+        # statement then applies per connected part: one zero mode per part, sum rule with the fluctuation inside the parts
+        for lab, crys, chem, cut in split_pair_crystals():
+            yield lab + "~local", crys, chem, (cut, crys.sitelist(chem), crys.jumpnetwork(chem, cut))
+        for label, crys, chem in source():
+            try:
+                net = gen.percolating_network(crys, chem, rng, **(dict(maxshell=8, maxjumps=200) if label in SINGLE_LABELS else {}))
+            except Exception:
+                skipped["construct-failed"] += 1; net = None
+            else:
+                if net is None: skipped["nonpercolating"] += 1
+            if net is not None: yield label, crys, chem, net
+            if len(crys.basis[chem]) >= 2 and rng.random() < 0.5:
+                try: ln = local_network(crys, chem, rng)
+                except Exception: ln = None
+                if ln is not None: yield label + "~local", crys, chem, ln
+    for label, crys, chem, net in networks():
         cut, sl, jn = net
         N = len(crys.basis[chem])
         if N < 2 and rng.random() < 0.8:
             skipped["single-site"] += 1; continue
+        jn_canon, cmap = jn, None
+        if rng.random() < 0.5:
+            jn, cmap = reorder_network(jn, rng); label += "~reordered"
         d = OnsagerCalc.Interstitial(crys, chem, sl, jn)
         dim = crys.dim
         for rep in range(ck.n(4, 5)):
@@ -362,7 +420,21 @@ def run(ck):
                              key="c12-exception")
                 continue
             interleaved = any(list(w) != list(range(min(w), min(w) + len(w))) for w in sl) or [w[0] for w in sl] != sorted(w[0] for w in sl)
-            kind = "%s:%dD-N%d-W%d-%s%s" % (stream, dim, N, len(sl), "conn" if len(info["comps"]) == 1 else "disc", "-interleaved" if interleaved else "")
+            kind = "%s:%dD-N%d-W%d-%s%s%s%s" % (stream, dim, N, len(sl), "conn" if len(info["comps"]) == 1 else "disc%d" % len(info["comps"]),
+                                                "-interleaved" if interleaved else "", "-local" if "~local" in label else "", "-reordered" if cmap else "")
+            if cmap is not None and rep == 0:
+                # listing-order invariance: the canonical listing with the same data must give the same modes
+                d0 = OnsagerCalc.Interstitial(crys, chem, sl, jn_canon)
+                pT0 = [None] * len(jn); bT0 = [None] * len(jn)
+                for c2, (c, idx) in enumerate(cmap): pT0[c] = inp["preT"][c2]; bT0[c] = inp["bET"][c2]
+                m0 = sorted(((float(l), np.array(L)) for l, L in d0.losstensors(inp["pre"], inp["bE"], [np.array(x) for x in inp["dipole"]], pT0, bT0)), key=lambda t: -t[0])
+                m1 = sorted(info["modes"], key=lambda t: -t[0])
+                same = len(m0) == len(m1) and all(abs(a[0] - b[0]) <= 1e-9 * info["maxrate"] and np.abs(a[1] - b[1]).max() <= max(RTOL, 200 * np.finfo(float).eps * info["cond"]) * info["scaleL"]
+                                                  for a, b in zip(m0, m1))
+                ck.case(key=(label, round(cut, 5), inp["pre"], inp["bET"], "order"), nontrivial=True, kind="listing-order:" + kind)
+                if not same:
+                    ck.violation("losstensors depends on the order in which the jump network lists its classes / jumps (%d vs %d modes)" % (len(m1), len(m0)),
+                                 {"crystal": repr(crys), "chem": chem, "cutoff": cut, **inp, "class_order": [c for c, _ in cmap]}, key="c12-listing-order")
             nsample += 1
             ck.case(key=(label, round(cut, 5), inp["pre"], inp["bE"], inp["bET"]), nontrivial=(info["nz"] > 0 or len(info["modes"]) > 0), kind=kind,
                     sample={"crystal": label, "cutoff": cut, "N": N, "stream": stream, "input": {k: inp[k] for k in ("pre", "bE", "preT", "bET")},
